@@ -460,6 +460,40 @@ pub fn check_sequence(f: &F, inputs: &[&str]) -> Result<(), String> {
     Ok(())
 }
 
+/// for each generic parse target: `parse::<X>(s)` and `parse_chars::<X>(s.chars().collect())` give the same outcome
+/// (both Err, or Ok with the same value)
+pub fn target_routes_case(f: &F, s: &str) -> Result<(), String> {
+    use narsese::enum_narsese::{Budget, Punctuation, Stamp, Truth};
+    let f = *f;
+    let s = s.to_string();
+    match quiet_catch(AssertUnwindSafe(move || -> Result<(), String> {
+        fn show<T: std::fmt::Debug, E>(r: Result<T, E>) -> String {
+            match r {
+                Ok(v) => format!("Ok({v:?})"),
+                Err(_) => "Err".into(),
+            }
+        }
+        let cs = || s.chars().collect::<Vec<char>>();
+        let pairs: Vec<(&str, String, String)> = vec![
+            ("Narsese", show(f.e.parse::<Narsese>(&s).map(|n| cv_of(&n))), show(f.e.parse_chars::<Narsese>(cs()).map(|n| cv_of(&n)))),
+            ("NarseseOptions", show(f.e.parse::<crate::props::c04::Options>(&s).map(|o| residue_string(&o))), show(f.e.parse_chars::<crate::props::c04::Options>(cs()).map(|o| residue_string(&o)))),
+            ("Truth", show(f.e.parse::<Truth>(&s).map(|t| truth_bits(&t))), show(f.e.parse_chars::<Truth>(cs()).map(|t| truth_bits(&t)))),
+            ("Budget", show(f.e.parse::<Budget>(&s).map(|b| budget_bits(&b))), show(f.e.parse_chars::<Budget>(cs()).map(|b| budget_bits(&b)))),
+            ("Stamp", show(f.e.parse::<Stamp>(&s)), show(f.e.parse_chars::<Stamp>(cs()))),
+            ("Punctuation", show(f.e.parse::<Punctuation>(&s)), show(f.e.parse_chars::<Punctuation>(cs()))),
+        ];
+        for (target, a, b) in pairs {
+            if a != b {
+                return Err(format!("parse::<{target}> gives {a} but parse_chars::<{target}> on the same characters gives {b}"));
+            }
+        }
+        Ok(())
+    })) {
+        Ok(r) => r,
+        Err(p) => Err(format!("panic: {p}")),
+    }
+}
+
 /// length (in characters) of the repeated input of the volume sweep, and its repetitions: 245 x 70 000 > 2^24
 pub const VOLUME_LEN: usize = 70_000;
 pub const VOLUME_REPS: usize = 245;
@@ -511,6 +545,7 @@ pub fn replay_case(c: &J) -> Result<(), String> {
     let inputs: Vec<String> = c["inputs"].as_array().map(|a| a.iter().map(|s| s.as_str().unwrap_or("").to_string()).collect()).unwrap_or_default();
     let refs: Vec<&str> = inputs.iter().map(|s| s.as_str()).collect();
     match c["op"].as_str() {
+        Some("target_routes") => target_routes_case(&f, c["input"].as_str().unwrap_or("")),
         Some("volume") => volume_case(&f, c["kind"].as_str().unwrap_or("long_word"), c["k"].as_u64().unwrap_or(VOLUME_REPS as u64) as usize),
         Some("soak") => {
             let (x, y) = (c["x"].as_str().unwrap_or(""), c["y"].as_str().unwrap_or(""));
@@ -759,6 +794,19 @@ pub fn run(run: &Run) {
                 let r = if which == "enum" { crate::props::c08e::case_enum(&f, edit) } else { crate::props::c08e::case_lex(&f, edit) };
                 if let Err(e) = r {
                     run.violation(&e, json!({"op": "edited_clone", "format": f.name, "edit": edit, "which": which}), &[]);
+                }
+            }
+        }
+        // "parsing from a character vector equals parsing from the string" for EVERY generic target of the two entry
+        // points (the whole value, the item-wise result, and the stand-alone truth / budget / stamp / punctuation
+        // parsers), on every input of the thorough alphabet (it holds the empty string, a blank, and every item alone)
+        {
+            let inputs = alphabet_thorough(&f);
+            for (n, s) in &inputs {
+                run.eval(6);
+                run.add_distinct(1);
+                if let Err(e) = target_routes_case(&f, s) {
+                    run.violation(&format!("[{}] input {n} {s:?}: {e}", f.name), json!({"op": "target_routes", "format": f.name, "input": s}), &[]);
                 }
             }
         }
